@@ -1007,6 +1007,12 @@ func settleAndJudge(c *h.Case, env *reloadEnv, g *histGen, svc *client.Service, 
 		if resent+retried > 0 {
 			run.Count("registrations_repeated_after_timeout_or_error", int64(resent+retried))
 		}
+		if retried > 0 {
+			// every name and port of the case is its own: the server has no reason to refuse anything, unless
+			// the client sent its messages in an order that makes old and new registrations collide
+			vio("start-error-without-cause-during-reload", "step %d: %s went through %d start error(s) although names and ports of the history never collide when closes precede registrations; transitions %+v, server events %+v", stepIdx, n, retried, phaseHistory(n), regEvents(n))
+			return false
+		}
 		if at > t.gens+resent+retried {
 			key := "unchanged-entry-registered-again"
 			what := "did not change"
